@@ -43,7 +43,8 @@ structure Obs where
   tname : Name
   tmpRoot : Path
   raised : Bool
-  /-- the encoder raised, or the converter raised / returned something that is not a `Path` -/
+  /-- the encoder raised, or the conversion failed: the converter raised / returned something that is not a `Path` /
+  its process exited with a non-zero status (whatever it wrote) or left no `<stem>.<fmt>` -/
   mustRaise : Bool
   /-- on success: the bytes the target has to hold (encoder's string / converter's output) -/
   expected : Option Bytes
@@ -67,7 +68,8 @@ def violations (o : Obs) : List String :=
   let tempChanged := o.allKeys.any fun q => under o.tmpRoot q && fget o.after q != fget o.before q
   (if o.mustRaise && !o.raised then ["no-raise-after-failed-encode-or-conversion"] else [])
   ++ (if tempChanged then ["temporary-files-left-behind"] else [])
-  ++ (if o.raised then
+  -- the failure clauses bind whenever the encode / the conversion failed — also when the call did not raise
+  ++ (if o.raised || o.mustRaise then
         (if fget o.after t != fget o.before t then ["target-changed-on-failure"] else [])
         ++ (if o.allKeys.any fun q => !under o.tmpRoot q && !sameB o.before o.dir o.after q
             then ["debris-on-failure"] else [])
